@@ -497,6 +497,12 @@ def adversarial_programs():
     P = "#pragma version 8\n"
     progs = {
         "dead-branches-into-live": P + "b live\ndead:\nint 1\nbnz live\nother:\nint 1\nreturn\nlive:\nint 1\nbnz other\nint 0\nreturn",
+        # a subroutine whose ONLY call site is unreachable still is a subroutine, and the calls inside it are retained call sites
+        "dead-callsite-chain": P + "int 1\nreturn\ncallsub sb\nerr\nsb:\ncallsub sc\nretsub\nsc:\ncallsub sa\nretsub\nsa:\nint 1\nretsub",
+        "dead-callsite-self-and-other": P + "callsub live\nint 1\nreturn\ndead:\ncallsub helper\nerr\nhelper:\ncallsub live\ncallsub helper\nretsub\nlive:\nint 1\nretsub",
+        # unreachable code next to blocks that belong to two routines (main and a subroutine share `fail`; two subroutines share a tail)
+        "shared-fail-and-dead": P + "txn Fee\nint 1000\n<=\nbz fail\ncallsub f\nint 1\nreturn\ndead:\nint 7\npop\nfail:\nerr\nf:\ntxn RekeyTo\nglobal ZeroAddress\n==\nbz fail\nretsub",
+        "shared-tail-and-dead-jump": P + "callsub f\ncallsub g\nint 1\nreturn\ndead:\nint 1\nbnz tail\nerr\nf:\nint 1\nb tail\ng:\nint 2\nb tail\ntail:\npop\nretsub",
         "dead-calls": P + "int 1\nreturn\ndead:\ncallsub f\nint 1\nreturn\nf:\ntxn RekeyTo\nglobal ZeroAddress\n==\nassert\nretsub",
         "dead-three-successors": P + "b live\ndead:\nint 0\nswitch a b live\na:\nint 1\nreturn\nb:\nint 1\nreturn\nlive:\nint 1\nbnz a\nint 1\nbnz b\nint 1\nreturn",
         "labels-at-end": P + "int 1\nbnz end\nint 1\nreturn\nend:",
